@@ -290,6 +290,12 @@ def sub_tokens(toks, pat, repl, tag, log, where, count=1):
                 caps.append(code[c][1].text)
                 c += 1
                 continue
+            if pt.kind == "ident" and pt.text == "_lit_":
+                # any single string literal (a format text); not captured
+                if c >= len(code) or code[c][1].kind not in ("str", "rawstr"):
+                    return None
+                c += 1
+                continue
             if c >= len(code) or code[c][1].text != pt.text:
                 return None
             if pt.kind == "punct" and pt.text in ("(", "[", "{"):
